@@ -336,10 +336,42 @@ def _s3(program, model, res):
     res.expect_count("C10-S3", "source requests in SQL generator steps", n, 12)
 
 
+def window_sort_key_rule(program, res, rule="C10-S4"):
+    """Pandas windowed extend: the frame is sorted before the window functions run.  The sort key may consist of the partition and order
+    columns only — a key that also holds the ops' value columns makes every op's result depend on the *other* ops' inputs (also of ops
+    whose outputs nobody uses, which columns_used() does not report) and on an ordering nobody asked for."""
+    from .. import cfg as cfgmod
+    from .. import deps as depsmod
+    m = program.method("pandas_base", "PandasModelBase", "_extend_step", inherited=False)
+    res.analysed(m)
+    op_param = [p for p in m.params() if p != "self"][0]
+    g = cfgmod.build(m.node)
+    d = depsmod.Deps(g, m.params(), control=True)
+    sorts = [(n, c) for n in g.stmt_nodes(("stmt",)) for c in ast.walk(n.stmt)
+             if isinstance(c, ast.Call) and isinstance(c.func, ast.Attribute) and c.func.attr == "sort_values"]
+    if not sorts:
+        raise AnalysisError("PandasModelBase._extend_step: the window sort (sort_values) was not found")
+    for (n, c) in sorts:
+        by = next((kw.value for kw in c.keywords if kw.arg == "by"), c.args[0] if c.args else None)
+        if by is None:
+            raise AnalysisError("PandasModelBase._extend_step: sort_values without a key")
+        roots = d.roots_at(n, by)
+        ops_dep = sorted(r for r in roots if r == f"{op_param}.ops" or r.startswith(f"{op_param}.ops."))
+        if ops_dep:
+            res.fail_at(rule, m, "window-sort-key-includes-value-columns",
+                        f"the window sort key `{unparse(by)}` depends on {ops_dep[0]} (the value columns of every op are appended to it): rows that tie on the order columns are "
+                        f"ranked by other ops' inputs — extend({{'r': '_row_number()', 'junk': 'z.cumsum()'}}, partition_by=['g'], order_by=['o']).drop_columns(['junk']) changes r when only z "
+                        f"changes (columns_used does not report z), a partition-only cumsum runs in value order, and merging two windowed extends changes their results", c)
+        else:
+            res.ok(rule, f"the window sort key `{unparse(by)}` derives from partition_by / order_by only")
+
+
 def run(program, res, tier):
     res.rule("C10-S1", "every column an evaluator reads flows positively and unconditionally into columns_used_from_sources")
     res.rule("C10-S2", "columns_used_implementation_ accumulates per node and recurses into every source")
     res.rule("C10-S3", "SQL generator prunes with the node's own columns_used_from_sources")
+    res.rule("C10-S4", "Pandas window sort key holds partition and order columns only")
+    window_sort_key_rule(program, res)
     res.assumptions.append("witness tables in sa/rules/c10.py (one token per column-bearing field; completeness of the table is checked against the constructors' column validations)")
     model = NodeModel(program)
     _s1(model, res)
